@@ -103,6 +103,8 @@ func targets() []target {
 
 func (h *H) reuseOne(t target, b1, b2 []byte) bool {
 	run := func(dec func([]byte) error, b []byte) (st string) {
+		cases.Begin(fmt.Sprintf("%s.UnmarshalBinary(%x) [reuse]", t.name, b), map[string]interface{}{"b1": hexs(b1), "b2": hexs(b2)})
+		defer cases.End()
 		defer func() {
 			if r := recover(); r != nil {
 				st = cq.Panic
